@@ -146,6 +146,24 @@ CLAIMS = {
                  "archives (truncations, byte flips: no abort, no lost row) are decided by correspondence and oracles."),
         "ref": "DESIGN.md §4 C19",
     },
+    "C17": {
+        "technique": "Lean 4 theorems by mutual structural induction over trees with unlistable directories (walker result = check_file folded over the visible events; error state gains exactly the failing directories; visible events = healed tree's events minus entries with an unlistable proper ancestor; rows depend on events only), content-fault locality over the ~80-arm column evaluator + CLI correspondence run as uid 65534 + fault injection (pipe closed at byte k, strace EPIPE at write k) with a no-crash/status oracle",
+        "category": "proof",
+        "text": ("Theorems for every finite tree with any number and position of unlistable directories and every depth window (depth-first, "
+                 "no streamed LIMIT): the searcher's result is check_file folded over the events of the faulty tree and the error counter/"
+                 "paths gain exactly one entry per failing directory met; those events are the events of the same tree with all directories "
+                 "listable minus exactly the entries below a failing directory (the failing directory's own row stays), and rows are a "
+                 "function of the events only; a tree without faults records nothing; status = 1 iff something was recorded. An entry whose "
+                 "content cannot be read differs from the readable entry only in line_count/sha*/is_shebang/has_xattrs (proved over every "
+                 "column of the generated Field table) and those are empty; CONTAINS is empty. PARTIAL: breadth-first and the ordered/"
+                 "aggregated result paths on faulty trees are decided by correspondence with the model (binary and snapshot both as uid "
+                 "65534) and by the filtered-fault-free-run oracle, not by theorems; 'vanished during the search' is not provoked. The "
+                 "closed-stdout clause is runtime behaviour (kernel pipe + Rust LineWriter) that the model cannot exhibit: it is decided by "
+                 "fault enumeration only (reader closes a 4 KiB pipe after k bytes for 6 formats x 4 result paths — every k in the thorough "
+                 "tier; strace-injected EPIPE from the k-th write on a FIFO) with the oracle no panic, status 0 or 1, delivered bytes are a "
+                 "prefix of the full output."),
+        "ref": "DESIGN.md §4 C17",
+    },
 }
 
 NOT_YET = {}
@@ -167,7 +185,7 @@ def main():
             "replay_cmd_template": "python3 tools/verif.py replay {path}",
             "engine": "lean-model",
             "technique": c["technique"],
-            "level_claimed": {"category": "proof", "text": c["text"], "design_ref": c["ref"]},
+            "level_claimed": {"category": c.get("category", "proof"), "text": c["text"], "design_ref": c["ref"]},
             "level_note": COMMON_NOTE,
         })
     claimed = [c["property_id"] for c in checks]
@@ -188,7 +206,7 @@ def main():
              "kind_free_text": "hand-written executable Lean 4 model (Fsel/Model) + theorems (Fsel/Props/Cxx.lean, helper lemmas in Fsel/Lemmas), generated tables (Fsel/Gen/Tables.lean) from tools/extract_tables.py"},
             {"name": "cli-correspondence", "path": "tools/", "serves_properties": claimed,
              "kind_free_text": "differential runs of the dev-profile binary vs the model driver (lean_exe fsmodel) on generated snapshots, plus independent Python oracles"},
-            {"name": "aux-harness", "path": "harness/", "serves_properties": [p for p in claimed if p in ("C10",)],
+            {"name": "aux-harness", "path": "harness/", "serves_properties": [p for p in claimed if p in ("C02", "C03", "C07", "C10", "C12", "C13", "C14", "C04", "C15", "C16", "C11")],
              "kind_free_text": "in-process Rust harness that #[path]-includes /repo/src (pure functions at high volume)"},
         ],
         "checks": checks,
